@@ -259,8 +259,8 @@ theorem Rep.pop_last {d : Deque α} {x : α} (h : Rep d [x]) (g : Int) :
       simp [h0]
 
 theorem Rep.popFront {d : Deque α} {l : List α} (h : Rep d l) (hl : l ≠ [])
-    (hc1 : popFrontClearsLast = true := by decide)
-    (hc2 : afterLast popFrontClears popFrontClearsLast = true := by decide) :
+    (hc1 : popFrontClearsLast = true)
+    (hc2 : afterLast popFrontClears popFrontClearsLast = true) :
     ∃ d', popFront d = .ok d' l.head? ∧ Rep d' l.tail ∧ slot d'.a d.front = some none ∧
       d'.gen = bump (if l.tail = [] then popFrontLastBumpsGen
                      else afterLast popFrontGenBumps popFrontLastBumpsGen) d.gen := by
@@ -325,8 +325,8 @@ theorem Rep.popFront {d : Deque α} {l : List α} (h : Rep d l) (hl : l ≠ [])
         simp
 
 theorem Rep.popBack {d : Deque α} {l : List α} (h : Rep d l) (hl : l ≠ [])
-    (hc1 : popBackClearsLast = true := by decide)
-    (hc2 : afterLast popBackClears popBackClearsLast = true := by decide) :
+    (hc1 : popBackClearsLast = true)
+    (hc2 : afterLast popBackClears popBackClearsLast = true) :
     ∃ d', popBack d = .ok d' l.getLast? ∧ Rep d' l.dropLast ∧ slot d'.a d.back = some none ∧
       d'.gen = bump (if l.dropLast = [] then popBackLastBumpsGen
                      else afterLast popBackGenBumps popBackLastBumpsGen) d.gen := by
